@@ -251,6 +251,47 @@ pub fn drive_corpus(corpus: &str, seed: u64, thorough: bool, w: &mut NdWriter) -
       }
     }
   }
+  // ... and nothing learnt about the KINDS of one grammar either (kind numbers mean other things in the next grammar): a
+  // comment of one language is examined as a skippable node, then calls of another language with one more argument -
+  // a number, a float, a string, a name - are tried against `foo(bar)` at every level
+  {
+    let shared = [SupportLang::Tsx, SupportLang::TypeScript, SupportLang::Go, SupportLang::Python, SupportLang::JavaScript, SupportLang::Ruby,
+                  SupportLang::Lua, SupportLang::Kotlin, SupportLang::Swift, SupportLang::Java, SupportLang::C, SupportLang::Rust];
+    let wrap = |l: SupportLang, call: &str| -> String {
+      match l {
+        SupportLang::Go => format!("package m\nfunc f() {{ {call} }}\n"),
+        SupportLang::Java => format!("class A {{ void m() {{ {call}; }} }}\n"),
+        SupportLang::C => format!("void m() {{ {call}; }}\n"),
+        SupportLang::Rust => format!("fn m() {{ {call}; }}\n"),
+        _ => format!("{call}\n"),
+      }
+    };
+    let comment_of = |l: SupportLang| match l { SupportLang::Python | SupportLang::Ruby => "foo(\n# c\nbar)", SupportLang::Lua => "foo(--[[ c ]] bar)", _ => "foo(/* c */ bar)" };
+    let mut k = 0;
+    for a in shared {
+      for b in shared {
+        if a == b {
+          continue;
+        }
+        k += 1;
+        if !thorough && k % 4 != (seed % 4) as usize && !matches!((a, b), (SupportLang::Tsx, SupportLang::TypeScript) | (SupportLang::Go, SupportLang::Python)) {
+          continue;
+        }
+        let mut texts: Vec<(SupportLang, String)> = vec![(a, wrap(a, comment_of(a)))];
+        for arg in ["1", "1.5", "\"s\"", "x"] {
+          texts.push((b, wrap(b, &format!("foo({arg}, bar)"))));
+        }
+        for (j, (l, src)) in texts.iter().enumerate() {
+          let g = l.ast_grep(src);
+          let Some(site) = all_nodes(&g).into_iter().filter(|n| n.text().starts_with("foo(") && n.text().ends_with("bar)") && n.is_named()).last() else { continue };
+          if let Some(r) = match_record(&format!("kinds-{}-{}#{j}", util::lang_name(a), util::lang_name(b)), *l, "foo(bar)", &site, json!({"mode": "near"})) {
+            w.put(&r);
+            n_near += 1;
+          }
+        }
+      }
+    }
+  }
   for (l, path, text) in util::corpus(corpus) {
     let g = l.ast_grep(&text);
     let sites = cut_sites(&g, 70);
